@@ -33,7 +33,8 @@ for d in sorted(glob.glob(os.path.join(V, "seeded", "*"))):
         return (not c.startswith(m.get("property", "?") + ":"), "no-failing-input-found" in c, c)
     caught = sorted(set(caught), key=rank)
     seeds.append("| %s | %s | %s | %s | %s |" % (os.path.basename(d), short(m.get("summary", ""), 230), short(m.get("needs_to_manifest", ""), 200),
-                 "; ".join(caught) if caught else "**missed** " + short(m.get("missed_note", ""), 160), "yes" if m.get("detected_with_replay") else ("no" if m.get("detected") else "—")))
+                 ("; ".join(caught) if caught else "**missed** " + short(m.get("missed_note", ""), 160)) + (" — *" + short(m["reading"], 300) + "*" if m.get("reading") else ""),
+                 "yes" if m.get("detected_with_replay") else ("no" if m.get("detected") else "—")))
 p = os.path.join(V, "DESIGN.md")
 s = open(p).read()
 for tag, lines in (("REPAIRS", rep), ("KNOWN", kn), ("SEEDED", seeds)):
